@@ -43,10 +43,15 @@ struct ObjInfo
     unsigned born_op;
 };
 
+struct CopyFault
+{
+};
+
 struct Registry
 {
     std::map<uintptr_t, ObjInfo> live;
     unsigned long copy_ctor = 0, move_ctor = 0, copy_assign = 0, move_assign = 0, dtor = 0, value_ctor = 0;
+    unsigned long copy_throw_at = 0, copies_seen = 0;  // != 0: the copy_throw_at-th copy construction of a Trk throws CopyFault
     void reset_counters() { copy_ctor = move_ctor = copy_assign = move_assign = dtor = value_ctor = 0; }
 };
 
@@ -190,6 +195,7 @@ struct Trk : TrkCore
     }
     Trk(const Trk& o)
     {
+        if (R().copy_throw_at && ++R().copies_seen == R().copy_throw_at) throw CopyFault{};
         o.check("copy-from");
         val = o.val;
         ++R().copy_ctor;
@@ -338,6 +344,18 @@ inline const int* ptr_table()
     return table;
 }
 
+// a trivially copyable class that overloads unary operator& (COM-style handle): only std::addressof finds its address
+struct Amp
+{
+    struct Address
+    {
+    };
+    int32_t v;
+    Address operator&() const { return {}; }
+    friend bool operator==(const Amp& a, const Amp& b) { return a.v == b.v; }
+    friend bool operator<(const Amp& a, const Amp& b) { return a.v < b.v; }
+};
+
 // VT<T>::norm(x): the value read back from make(x) - the identity unless the type has fewer states than the model
 template <class T, class = void>
 struct VT
@@ -363,6 +381,14 @@ struct VT<Big32>
             if (b.pad[i] != (b.v ^ (0x1010101 * (i + 1)))) return -6;
         return b.v;
     }
+    static int norm(int x) { return x; }
+    static constexpr bool tracked = false;
+};
+template <>
+struct VT<Amp>
+{
+    static Amp make(int x) { return Amp{x}; }
+    static int read(const Amp& a) { return a.v; }
     static int norm(int x) { return x; }
     static constexpr bool tracked = false;
 };
